@@ -373,9 +373,17 @@ class TraceSet(object):
                 self.xjumpval = np.float64(kwargs['xjumpval'])
             else:
                 self.xjumpval = None
-            self.coeff = np.zeros((self.nTrace, self.ncoeff), dtype=xpos.dtype)
+            #
+            # Integer (pixel number) positions still have non-integer
+            # coefficients and fitted values.
+            #
+            if np.issubdtype(xpos.dtype, np.floating):
+                dt = xpos.dtype
+            else:
+                dt = np.float64
+            self.coeff = np.zeros((self.nTrace, self.ncoeff), dtype=dt)
             self.outmask = np.zeros(xpos.shape, dtype=bool)
-            self.yfit = np.zeros(xpos.shape, dtype=xpos.dtype)
+            self.yfit = np.zeros(xpos.shape, dtype=dt)
             for iTrace in range(self.nTrace):
                 xvec = self.xnorm(xpos[iTrace, :], do_jump)
                 iIter = 0
@@ -414,7 +422,13 @@ class TraceSet(object):
         do_jump = self.has_jump and (not ignore_jump)
         if xpos is None:
             xpos = djs_laxisgen([self.nTrace, self.nx], iaxis=1) + self.xmin
-        ypos = np.zeros(xpos.shape, dtype=xpos.dtype)
+        if np.issubdtype(xpos.dtype, np.floating):
+            ypos = np.zeros(xpos.shape, dtype=xpos.dtype)
+        else:
+            #
+            # Integer (pixel number) positions still have non-integer values.
+            #
+            ypos = np.zeros(xpos.shape, dtype=np.float64)
         for iTrace in range(self.nTrace):
             xvec = self.xnorm(xpos[iTrace, :], do_jump)
             legarr = self._func_map[self.func](xvec, self.ncoeff)
